@@ -5,6 +5,7 @@ import (
 	"fmt"
 	"reflect"
 
+	"github.com/arr-ai/hash"
 	"github.com/arr-ai/wbnf/parser"
 
 	"github.com/arr-ai/arrai/pkg/fu"
@@ -57,7 +58,9 @@ func (e EmptySet) Equal(i Value) bool {
 }
 
 func (e EmptySet) Hash(seed uintptr) uintptr {
-	return seed
+	// Must not be the identity: set hashes XOR their members' Hash(0), so a
+	// zero hash here would make s and s | {{}} hash (and compare) alike.
+	return hash.Uintptr(0x5e7e3977, seed)
 }
 
 func (e EmptySet) Eval(ctx context.Context, local Scope) (Value, error) {
